@@ -23,7 +23,7 @@ FORMS = ["elf-elf", "xml-xml", "elf-xml", "xml-elf"]
 @st.composite
 def strategy_(draw, tier):
     big = tier == "thorough"
-    m = draw(S.library(lang="any", max_types=12 if big else 8, max_funcs=8 if big else 6, symfeatures=True, tu_private=45))
+    m = draw(S.library(lang="any", max_types=12 if big else 8, max_funcs=8 if big else 6, symfeatures=True, tu_private=45, tdanon=20))
     cfg = draw(S.build_config(kinds=("shared", "shared", "rel", "pie", "exe")))
     form = S._pick(draw, FORMS)
     if big and draw(st.booleans()):
